@@ -120,7 +120,39 @@ def oracle_const_normal(args):
     return not problems, {"yielded": len(s), "problems": problems[:3]}, {"expected": len(want)}, "; ".join(problems[:2]) or "ok"
 
 
-ORACLES = {"boltzmann": oracle_boltzmann, "const_normal": oracle_const_normal}
+@safe_oracle
+def oracle_samples_after_runs(args):
+    """the initial conditions a generator hands out are the REQUESTED ones for every sample, also after the trajectories of the
+    earlier samples have been run (a batch runs them one after the other): every trajectory starts at the requested position, and
+    the generator's own position array is what the user put in"""
+    import mudslide
+    from ..synth import SynthModel
+    rng = np.random.Generator(np.random.PCG64(args["seed"]))
+    n = int(args["n"])
+    model = SynthModel(rng, 2, n, scale=0.03, gap=0.05, mass=10 ** rng.uniform(2.5, 3.5, size=n))
+    x0 = np.array(rng.normal(size=n), dtype=np.float64)          # a float64 array of shape (ndim,): the user's own object
+    keep = np.array(x0)
+    if args["gen"] == "const":
+        gen = mudslide.TrajGenConst(x0, np.array(rng.normal(size=n) * 5 + 8), 0, seed=args["seed"])
+    else:
+        gen = mudslide.TrajGenBoltzmann(x0, np.array(model.mass), 300.0, 0, scale=True, seed=args["seed"], momentum_seed=args["seed"] + 1)
+    ns = int(args["samples"])
+    b = mudslide.BatchedTraj(model, gen, getattr(mudslide, args["cls"]), samples=ns, dt=2.0, max_steps=int(args["steps"]))
+    tm = b.compute()
+    problems = []
+    for j, tr in enumerate(tm.traces):
+        first = np.asarray(list(tr)[0]["position"], dtype=np.float64)
+        if not np.array_equal(first, keep):
+            problems.append("trajectory %d starts at %r, requested %r" % (j, first.tolist(), keep.tolist()))
+            break
+    if not np.array_equal(x0, keep):
+        problems.append("the position array given to the generator was changed: %r -> %r" % (keep.tolist(), x0.tolist()))
+    if not np.array_equal(np.asarray(gen.position, dtype=np.float64), keep):
+        problems.append("the generator's position is %r after the batch, requested %r" % (np.asarray(gen.position).tolist(), keep.tolist()))
+    return not problems, {"trajectories": len(tm.traces), "problems": problems[:3]}, {"problems": []}, "; ".join(problems[:2]) or "ok"
+
+
+ORACLES = {"samples_after_runs": oracle_samples_after_runs, "boltzmann": oracle_boltzmann, "const_normal": oracle_const_normal}
 
 
 def run(ctx):
@@ -172,6 +204,14 @@ def run(ctx):
         if not ok:
             ctx.oracle_fail("boltzmann", "boltzmann", args, obs, req, text)
 
+    for i in range(ctx.budget(6, 60)):
+        a = {"gen": ["const", "boltzmann"][i % 2], "cls": ["TrajectorySH", "Ehrenfest", "TrajectoryCum"][i % 3], "n": int(rng.integers(1, 4)),
+             "samples": int(rng.integers(2, 5)), "steps": int(rng.integers(3, 12)), "seed": int(rng.integers(1, 2 ** 31))}
+        ok, obs, req, text = oracle_samples_after_runs(a)
+        ctx.case(("samples-after-runs", a["gen"], a["cls"], a["n"]))
+        ctx.count("samples_after_runs")
+        if not ok:
+            ctx.oracle_fail("samples-after-runs", "samples_after_runs", a, obs, req, text)
     lines, keep = [], []
     for i in range(ctx.budget(150, 10000)):
         n = int(rng.integers(1, 4))
